@@ -236,8 +236,12 @@ def targets(S):
             g['np'].members['array'] = Model(lambda c, x, *a, **k: x, 'np.array')
             g['SkyCoord'] = Model(lambda c, a, b, unit=None: Obj('SkyCoord', ra=AngleStr('ra', a, unit), dec=AngleStr('dec', b, unit)))
             g['u'] = Namespace('u', degree='deg', hourangle='hourangle')
+            bnds = []
+            g['hp'].members['boundaries'] = Model(
+                lambda c, nside, pix, step=None, nest=False: (bnds.append(Boundary(nside, pix, step, nest)) or bnds[-1]), 'hp.boundaries')
+            ctx.ghost_bnds = bnds
             ctx.interp.contracts['Region.vec2sky'] = Model(
-                lambda c, klass, vecs, degrees=False: [(SkyVal('ra', v, degrees), SkyVal('dec', v, degrees)) for v in vecs])
+                lambda c, klass, vecs, degrees=False: [sky_of(v, degrees) for v in vecs])
             install_write_reg_spec(ctx, out, pd0, D, g)
             k, res = call(ctx, r, 'write_reg', "out.reg")
             lab = "write_reg.D%d" % D
@@ -264,14 +268,27 @@ class Boundary(PyObj):
         return [[('corner', self, k, ax) for k in range(4)] for ax in range(3)]
 
 
-class SkyVal(PyObj):
-    def __init__(self, which, vec, degrees):
-        self.which, self.vec, self.degrees = which, vec, degrees
+CRA = z3.Function('corner_ra_deg', z3.IntSort(), z3.IntSort(), z3.IntSort(), z3.RealSort())
+CDEC = z3.Function('corner_dec_deg', z3.IntSort(), z3.IntSort(), z3.IntSort(), z3.RealSort())
 
-    def binop_(self, ctx, op, other, swapped):
-        if op == 'truediv' and not swapped:
-            return ('div', self, other)
-        return NotImplemented
+
+def corner_of(vec):
+    """(boundary, k) of a corner vector (x_k, y_k, z_k) as produced by zip(*Boundary), or None"""
+    if not (isinstance(vec, tuple) and len(vec) == 3 and all(isinstance(c, tuple) and c and c[0] == 'corner' for c in vec)):
+        return None
+    if len(set(id(c[1]) for c in vec)) != 1 or len(set(c[2] for c in vec)) != 1 or [c[3] for c in vec] != [0, 1, 2]:
+        return None
+    return vec[0][1], vec[0][2]
+
+
+def sky_of(vec, degrees):
+    """contract of Region.vec2sky on a corner vector: its (ra, dec) as symbolic reals"""
+    co = corner_of(vec)
+    if co is None or degrees is not True:
+        raise Undecided("vec2sky called on something else than the boundary corners in degrees")
+    b, k = co
+    args = (Sym.lift(b.nside), Sym.lift(b.pix), z3.IntVal(k))
+    return (Sym(CRA(*args), True), Sym(CDEC(*args), True))
 
 
 class AngleStr(PyObj):
@@ -361,45 +378,34 @@ def install_write_reg_spec(ctx, out, pd0, D, g):
 
 
 def analyse_line(ctx, line):
-    """decode the printed polygon line into the healpy call it was built from"""
+    """decode the printed polygon line: 8 formatted angles (ra/15, dec per corner) of ONE healpy.boundaries call"""
     from contracts.models import flatten_str
     parts = flatten_str(line) if isinstance(line, (str, StrFormat)) else None
     if parts is None:
         return None
     strs = [x for x in parts if isinstance(x, tuple) and x and x[0] == 'str']
+    others = [x for x in parts if not isinstance(x, (str, tuple))]
     lits = "".join(x for x in parts if isinstance(x, str))
-    if len(strs) != 8 or not lits.startswith("fk5; polygon(") or not lits.endswith(")"):
+    if others or len(strs) != 8:
+        # positions are not formatted through SkyCoord(...).to_string: a different formatter -> this contract cannot vouch
+        raise Undecided("write_reg formats positions with something else than SkyCoord(...).to_string")
+    if not lits.startswith("fk5; polygon(") or not lits.endswith(")"):
         return None
-    b = None
-    order_ok = True
-    for j, s in enumerate(strs):
-        ang = s[1]
+    bnds = getattr(ctx, 'ghost_bnds', [])
+    if not bnds:
+        return None
+    b = bnds[-1]
+    args = lambda k: (Sym.lift(b.nside), Sym.lift(b.pix), z3.IntVal(k))
+    conds = []
+    for j, s_ in enumerate(strs):
+        ang = s_[1]
+        k = j // 2
         want_axis = 'ra' if j % 2 == 0 else 'dec'
-        v = ang.value
-        if want_axis == 'ra':
-            if not (isinstance(v, tuple) and v[0] == 'div' and v[2] == 15 and isinstance(v[1], SkyVal)):
-                order_ok = False
-                continue
-            sv = v[1]
-        else:
-            sv = v
-        if not isinstance(sv, SkyVal) or sv.which != want_axis or ang.axis != want_axis or sv.degrees is not True:
-            order_ok = False
-            continue
-        corner = sv.vec
-        # vec is a tuple (x_k, y_k, z_k) of corner entries of one Boundary, corner index j//2
-        if not (isinstance(corner, tuple) and len(corner) == 3 and all(isinstance(c, tuple) and c[0] == 'corner' for c in corner)):
-            order_ok = False
-            continue
-        bs = set(id(c[1]) for c in corner)
-        ks = set(c[2] for c in corner)
-        axs = [c[3] for c in corner]
-        if len(bs) != 1 or ks != {j // 2} or axs != [0, 1, 2]:
-            order_ok = False
-        b = corner[0][1]
-    if b is None:
-        return None
-    return {'nside': b.nside, 'pix': b.pix, 'step': b.step, 'nest': b.nest, 'order_ok': order_ok}
+        want = Sym(CRA(*args(k)) / 15, True) if want_axis == 'ra' else Sym(CDEC(*args(k)), True)
+        if ang.axis != want_axis or not isinstance(ang.value, Sym):
+            return {'nside': b.nside, 'pix': b.pix, 'step': b.step, 'nest': b.nest, 'order_ok': False}
+        conds.append(ang.value == want)
+    return {'nside': b.nside, 'pix': b.pix, 'step': b.step, 'nest': b.nest, 'order_ok': And(*conds)}
 
 
 def verify(S):
